@@ -70,14 +70,39 @@ func c01GenCheck(c C01GenCase, rec *evid.Rec) error {
 		tp, rp = gendemo.Type.UnionKinded, gendemo.Type.UnionKinded__Repr
 	}
 	what := fmt.Sprintf("gendemo %s", c.Kind)
-	n1, err := nodes.Build(tview, nodes.NewProg(c.Prog), tp)
+	// struct fields may be supplied in any order (the node keeps the declared order): the entries of every Msg3
+	// are permuted by the program bytes before they are assembled
+	perm := func(v val.V) val.V {
+		var rec func(x val.V) val.V
+		rec = func(x val.V) val.V {
+			if x.K != val.Map {
+				return x
+			}
+			out := val.V{K: val.Map, Ents: make([]val.Ent, len(x.Ents))}
+			for i, e := range x.Ents {
+				out.Ents[i] = val.Ent{K: e.K, V: rec(e.V)}
+			}
+			if len(out.Ents) == 3 && out.Ents[0].K == "whee" {
+				rot := 0
+				if len(c.Prog) > 0 {
+					rot = int(c.Prog[len(c.Prog)-1]) % 6
+				}
+				order := [][3]int{{0, 1, 2}, {1, 0, 2}, {1, 2, 0}, {2, 1, 0}, {2, 0, 1}, {0, 2, 1}}[rot]
+				e := out.Ents
+				out.Ents = []val.Ent{e[order[0]], e[order[1]], e[order[2]]}
+			}
+			return out
+		}
+		return rec(v)
+	}
+	n1, err := nodes.Build(perm(tview), nodes.NewProg(c.Prog), tp)
 	if err != nil {
 		return fmt.Errorf("%s: type-level build of %s failed: %w", what, tview.Short(200), err)
 	}
 	if err := typedx.CheckViews(n1, tview, rview, what+": built at type level, but"); err != nil {
 		return err
 	}
-	n2, err := nodes.Build(rview, nodes.NewProg(c.Prog), rp)
+	n2, err := nodes.Build(perm(rview), nodes.NewProg(c.Prog), rp)
 	if err != nil {
 		return fmt.Errorf("%s: representation-level build of %s failed: %w", what, rview.Short(200), err)
 	}
@@ -164,7 +189,7 @@ func c01GenCheck(c C01GenCase, rec *evid.Rec) error {
 
 var c01Gen = evid.Part[C01GenCase]{
 	Prop: "C01", Name: "gendemo", Quick: 2000, Thorough: 200000,
-	Rule: "the checked-in generated code (node/gendemo): struct Msg3, typed map {String:Msg3}, kinded union, built at type and representation level through drawn builder programs; full typed reader on both views, DeepEqual between routes, Copy into basicnode, and (maps) a repeated key supplied through AssembleEntry / key AssignString / key AssignNode must be rejected with a repeated-key error and leave no trace; non-trivial = a map with ≥2 entries or a union; distinct by case",
+	Rule: "the checked-in generated code (node/gendemo): struct Msg3, typed map {String:Msg3}, kinded union, built at type and representation level through drawn builder programs, struct fields supplied in a drawn order; full typed reader on both views, DeepEqual between routes, Copy into basicnode, and (maps) a repeated key supplied through AssembleEntry / key AssignString / key AssignNode must be rejected with a repeated-key error and leave no trace; non-trivial = a map with ≥2 entries or a union; distinct by case",
 	Gen: func(t *rapid.T) C01GenCase {
 		c := C01GenCase{Kind: rapid.SampledFrom([]string{"msg3", "map", "map", "union"}).Draw(t, "kind"), Which: rapid.IntRange(0, 2).Draw(t, "which"),
 			Prog: rapid.SliceOfN(rapid.Byte(), 0, 12).Draw(t, "prog"), Str: val.Txt(val.DrawText(t, "str", false, 4))}
